@@ -204,6 +204,19 @@ struct JanetVM {
 
 extern JANET_THREAD_LOCAL JanetVM janet_vm;
 
+#ifdef JANET_VERIF_SIM
+/* Verification hooks (deterministic simulator in /verif). All NULL unless a harness
+ * fills them in; compiled out entirely unless JANET_VERIF_SIM is defined. */
+typedef struct {
+    int (*gc_safepoint)(void);            /* decide whether to collect at an interpreter safepoint */
+    void (*point)(int kind, void *obj);   /* scheduling point inside cross-thread code */
+} JanetVerifHooks;
+extern JanetVerifHooks janet_verif_hooks;
+#define JANET_VERIF_POINT(kind, obj) do { if (janet_verif_hooks.point) janet_verif_hooks.point((kind), (obj)); } while (0)
+#else
+#define JANET_VERIF_POINT(kind, obj) ((void) 0)
+#endif
+
 #ifdef JANET_NET
 void janet_net_init(void);
 void janet_net_deinit(void);
